@@ -436,6 +436,9 @@ pub struct PlanA {
     pub yield_p: f64,
     pub spurious_p: f64,
     pub eintr_p: f64,
+    /// probability that a frame or datagram erbium sends is refused with ENOBUFS/ENETDOWN
+    #[serde(default)]
+    pub send_err_p: f64,
     /// rows placed in the store before first boot: (address, clientid, start, expiry)
     pub prefill: Vec<(Ipv4Addr, Vec<u8>, i64, i64)>,
     /// an on-disk image written by another version of erbium, present before first boot
@@ -1213,6 +1216,10 @@ pub fn generate(seed: u64, opts: &GenOpts) -> PlanA {
         yield_p: if same_instant_run { *r.pick(&[0.0, 0.2, 0.5]) } else { 0.0 },
         spurious_p: if r.chance(0.3) { 0.05 } else { 0.0 },
         eintr_p: if r.chance(0.3) { 0.05 } else { 0.0 },
+        send_err_p: {
+            let mut k = Rng::new(seed, "plan-a-send-err");
+            if matches!(shape, "mixed" | "hostile" | "concurrent") && k.chance(0.15) { *k.pick(&[0.05, 0.2]) } else { 0.0 }
+        },
         prefill: vec![],
         image: None,
         crash_at_total: None,
@@ -1412,6 +1419,7 @@ pub fn generate_drain(seed: u64, large: bool) -> PlanA {
         yield_p: 0.0,
         spurious_p: 0.0,
         eintr_p: 0.0,
+        send_err_p: 0.0,
         prefill,
         image: None,
         crash_at_total: None,
@@ -1512,6 +1520,7 @@ pub fn generate_small(seed: u64, images: bool) -> PlanA {
         yield_p: 0.0,
         spurious_p: 0.0,
         eintr_p: 0.0,
+        send_err_p: 0.0,
         prefill: vec![],
         image,
         crash_at_total: None,
@@ -1641,6 +1650,7 @@ pub fn generate_acl_http(seed: u64, thorough: bool) -> PlanA {
         yield_p: 0.0,
         spurious_p: 0.0,
         eintr_p: 0.0,
+        send_err_p: 0.0,
         prefill: vec![],
         image: None,
         crash_at_total: None,
